@@ -106,6 +106,13 @@ def register(d):
     name = ("vfc%dx%d" if k % 2 else "vf_c%d_%d") % (os.getpid(), k)
     cname = name.capitalize() + "Command"
     base = impl.sl_commands.ActionCommand if d["role"] == "action" else impl.sl_commands.TestCommand
+    # "unregistered names remain unknown": the name, in the spellings used later, is tried before its registration
+    # (so that whatever the library remembers about an unknown name has to be forgotten when it is registered)
+    for sp in (name.encode(), name.encode().upper(), name.capitalize().encode()):
+        text = sp + b' "x";' if d["role"] == "action" else b"if " + sp + b' "x" { keep; }'
+        o = impl.parse_outcome(text)
+        if o.exc is None and o.verdict is not False:
+            _PARENT_PROBLEMS.append(("unregistered-name-not-unknown|before-its-registration", {"text": text, "impl": o.summary()}))
     if d.get("derive") is not None:
         # a parent command of the same role with d["derive"] required strings, registered
         # and used once before the class under test is derived from it
@@ -456,6 +463,10 @@ def replay(case):
         if s.ext and s.ext not in exts:
             exts.append(s.ext)
     args = case["args"]
+    if case["kind"] == "parent":
+        out = list(_PARENT_PROBLEMS)
+        del _PARENT_PROBLEMS[:]
+        return out
     if case["kind"] == "sibling":
         text = script(name + "q", entry, args, exts)
         o = impl.parse_outcome(text)
